@@ -223,7 +223,56 @@ class Normalise(ast.NodeTransformer):
         return n
 
 
+_DD_EMPTY = {"list": ("append", "extend", lambda: ast.List(elts=[], ctx=ast.Load())),
+             "set": ("add", "update", lambda: ast.Call(func=ast.Name(id="set", ctx=ast.Load()), args=[], keywords=[]))}
+
+
+def _defaultdict_groups(tree):
+    """N9: in a function whose local `b` is only ever bound by `b = defaultdict(list)` (or set), the grouping statement
+    `b[k].append(v)` is the same operation as `b.setdefault(k, []).append(v)` on a plain dict; use the latter spelling."""
+    for fn in ast.walk(tree):
+        if not isinstance(fn, (ast.FunctionDef, ast.AsyncFunctionDef)):
+            continue
+        kinds, other = {}, set()
+        for n in ast.walk(fn):
+            tg = None
+            if isinstance(n, ast.Assign) and len(n.targets) == 1:
+                tg, v = n.targets[0], n.value
+            elif isinstance(n, ast.AnnAssign) and n.value is not None:
+                tg, v = n.target, n.value
+            if isinstance(tg, ast.Name):
+                kind = None
+                if isinstance(v, ast.Call) and not v.keywords and len(v.args) == 1 and isinstance(v.args[0], ast.Name) and v.args[0].id in _DD_EMPTY \
+                        and ((isinstance(v.func, ast.Name) and v.func.id == "defaultdict")
+                             or (isinstance(v.func, ast.Attribute) and v.func.attr == "defaultdict")):
+                    kind = v.args[0].id
+                if kind and kinds.get(tg.id, kind) == kind:
+                    kinds[tg.id] = kind
+                else:
+                    other.add(tg.id)
+            elif isinstance(n, (ast.For, ast.comprehension, ast.NamedExpr, ast.AugAssign, ast.withitem)):
+                t = n.target if not isinstance(n, ast.withitem) else n.optional_vars
+                for x in ast.walk(t) if t is not None else ():
+                    if isinstance(x, ast.Name):
+                        other.add(x.id)
+            elif isinstance(n, ast.arg):
+                other.add(n.arg)
+        names = {k: v for k, v in kinds.items() if k not in other}
+        if not names:
+            continue
+        for n in ast.walk(fn):
+            if isinstance(n, ast.Call) and isinstance(n.func, ast.Attribute) and isinstance(n.func.value, ast.Subscript) \
+                    and isinstance(n.func.value.value, ast.Name) and n.func.value.value.id in names \
+                    and n.func.attr in _DD_EMPTY[names[n.func.value.value.id]][:2]:
+                sub = n.func.value
+                n.func.value = ast.copy_location(ast.Call(
+                    func=ast.copy_location(ast.Attribute(value=sub.value, attr="setdefault", ctx=ast.Load()), sub),
+                    args=[sub.slice, ast.copy_location(_DD_EMPTY[names[sub.value.id]][2](), sub)], keywords=[]), sub)
+    return tree
+
+
 def normalise(tree: ast.AST) -> ast.AST:
     tree = Normalise().visit(tree)
+    tree = _defaultdict_groups(tree)
     ast.fix_missing_locations(tree)
     return tree
